@@ -72,3 +72,43 @@ fn rac_lint_group_cache() {
     }
     println!("RAC-OK lint_group_cache cases={} nontrivial={} bound=ordered-pairs-of-64-texts,two-presentation-orders", cases, nontrivial);
 }
+
+
+// Every curated rule, on the sentences of the repository's own rule tests (harvested from the tree under check
+// into RAC_LINT_CORPUS), each at three positions: alone, after a heading paragraph, and followed by a tab at the very
+// end of the text; plus a few hand-written texts. BOUNDED stand-in for "every rule reports start <= end <= text
+// length and its suggestions are local edits" (C03), which no contract can reach (~290 rule bodies).
+include!("/verif/.cache/rac-gen/lint_corpus.rs");
+
+#[test]
+fn rac_rule_spans() {
+    let extra = ["This line ends with a tab\t", "That s", "Well that s", "It costs 25$ 24$ or 23$.", "the the the end", "😀😀 an test é", "She said \"hi", "1st 2st 3st"];
+    let long_sentence = "This sentence is deliberately written to be very long so that it contains more than forty words in total and keeps going on and on without any real point other than to exceed the limit that the long sentence rule uses to decide when a sentence is too long.";
+    let mut texts: Vec<String> = vec![];
+    for t in RAC_LINT_CORPUS.iter().chain(extra.iter()) {
+        texts.push(t.to_string());
+        texts.push(format!("Title here\n\nÉ 😀 intro. {}", t));
+        texts.push(format!("{}\t", t));
+    }
+    texts.push(long_sentence.to_string());
+    texts.push(format!("# Heading\n\nShort one. {}", long_sentence));
+    let mut group = LintGroup::new_curated(FstDictionary::curated(), Dialect::American);
+    let mut cases = 0u64;
+    let mut nontrivial = 0u64;
+    for t in &texts {
+        let r = std::panic::catch_unwind(std::panic::AssertUnwindSafe(|| rac_check(&mut group, t)));
+        cases += 1;
+        match r {
+            Ok(Ok(n)) => { if n > 0 { nontrivial += 1; } }
+            Ok(Err(why)) => {
+                println!("RAC-CEX rule_spans {{\"text\": {:?}, \"why\": {:?}}}", t, why);
+                panic!("rule span contract violated");
+            }
+            Err(_) => {
+                println!("RAC-CEX rule_spans {{\"text\": {:?}, \"why\": \"linting panicked\"}}", t);
+                panic!("linting panicked");
+            }
+        }
+    }
+    println!("RAC-OK rule_spans cases={} nontrivial={} bound=rule-test-sentences-x-3-positions", cases, nontrivial);
+}
